@@ -7,7 +7,7 @@ import conc
 import driver
 
 PROPERTIES_FILE = "Properties/Properties_C19.v"
-COQ_DEPS = ["Proofs/Block_proofs.vo"]
+COQ_DEPS = ["Proofs/Block_proofs.vo", "Proofs/BlockR_proofs.vo"]
 GEN_MODULES = ["Gen_block"]
 LEVEL = "proof"
 TRUSTED = [
@@ -79,7 +79,7 @@ def parse_rounds(other):
                     d[a] = b
             d["runs"] = [int(x) for x in d.get("runs", "").split(",") if x]
             for a in ("kind", "subm", "flags", "hold", "inv", "body", "performed", "cancels", "wz", "wnz", "wearly", "tczero",
-                      "expect_done", "stuck", "finalflags", "nnotif"):
+                      "expect_done", "stuck", "finalflags", "finalqueue", "nnotif"):
                 d[a] = int(d[a])
             rounds[d["k"]] = d
         elif l.startswith("L "):
@@ -291,6 +291,187 @@ def conformance(name, alltr, chunk=300):
     return out
 
 
+
+# ---------------------------------------------------------------------------------------------------------------
+# whole-round replay on the GLOBAL model (Model/BlockR.v): a round = the life of one block object
+M32 = (1 << 32) - 1
+
+
+def _chain(events, start, old_of, new_of, limit=100000):
+    """order `events` (each carries .thr, .seq) so that old(e_k) = new(e_{k-1}), old(e_0) = start, keeping every thread's
+    program order; depth-first with the recorder's ticket as the preference.  Returns the ordered list or None."""
+    byth = {}
+    for e in events:
+        byth.setdefault(e.thr, []).append(e)
+    pos = {t: 0 for t in byth}
+    order, cur, steps, stack, n = [], start, 0, [], len(events)
+    while len(order) < n:
+        cands = sorted([byth[t][pos[t]] for t in byth if pos[t] < len(byth[t]) and old_of(byth[t][pos[t]]) == cur],
+                       key=lambda e: e.seq)
+        stack.append([cands, 0, cur])
+        while True:
+            steps += 1
+            if steps > limit or not stack:
+                return None
+            top = stack[-1]
+            if top[1] < len(top[0]):
+                e = top[0][top[1]]
+                top[1] += 1
+                order.append(e)
+                pos[e.thr] += 1
+                cur = new_of(e)
+                break
+            stack.pop()
+            if not order:
+                return None
+            e = order.pop()
+            pos[e.thr] -= 1
+            cur = stack[-1][2] if stack else start
+    return order
+
+
+def _rmw_new(e):
+    if e.kind == 9:
+        return (e.a | e.b) & M32
+    if e.kind == 8:
+        return e.a & e.b & M32
+    if e.kind == 6:
+        return (e.a + e.b) & M32
+    return e.b
+
+
+def build_round(rd, threads):
+    """threads: {thread index: [Ev] visible events of this round in program order}.
+    returns (pf, queues [(model thread id, [Ev])], order [model thread id per visible event]) or (None, reason).
+    The preferred order is the recorder's stamps made consistent with program order, with the exact old -> new chains of
+    dbpd_atomic_flags, dbpd_performed and dbpd_queue, and with the values seen by the reads of dbpd_performed / the failed
+    compare-exchanges of dbpd_queue."""
+    pf = rd["kind"] == 2
+    allev = [e for tr in threads.values() for e in tr]
+    words = []   # (start value, writes, reads, old_of, new_of)
+    fl0 = 8 if pf else 0
+    words.append((fl0, [e for e in allev if e.obj % 2 == 0 and e.off == OFF["flags"] and e.kind in (8, 9)], [],
+                  lambda e: e.a & M32, _rmw_new))
+    words.append((0, [e for e in allev if e.obj % 2 == 0 and e.off == OFF["performed"] and e.kind == 6],
+                  [e for e in allev if e.obj % 2 == 0 and e.off == OFF["performed"] and e.kind == 1],
+                  lambda e: e.a & M32, _rmw_new))
+    words.append((0, [e for e in allev if e.obj % 2 == 0 and e.off == OFF["queue"] and (e.kind == 3 or (e.kind == 4 and e.ok & 1))],
+                  [e for e in allev if e.obj % 2 == 0 and e.off == OFF["queue"] and e.kind == 4 and not (e.ok & 1)],
+                  lambda e: e.a, lambda e: e.b))
+    anchor = {id(e): float(e.seq) for e in allev}
+    cons = []    # (x, y): x before y
+    for tr in threads.values():
+        cons += list(zip(tr, tr[1:]))
+    for start, writes, reads, old_of, new_of in words:
+        if pf and start == 8 and rd["cancels"]:
+            start = 9          # white-box preset of DBF_CANCELED (replayed as a cancel of its own before the recording)
+        ch = _chain(writes, start, old_of, new_of)
+        if ch is None:
+            return None, "the recorded operations on a word of the private data do not form a chain old -> new"
+        cons += list(zip(ch, ch[1:]))
+        vals = [start] + [new_of(e) for e in ch]          # vals[i] = value after i writes
+        for r in reads:
+            v = old_of(r)
+            best = None
+            for i, x in enumerate(vals):
+                if x != v:
+                    continue
+                lo = ch[i - 1].seq if i > 0 else -1
+                hi = ch[i].seq if i < len(ch) else float("inf")
+                d = max(0, lo - r.seq, r.seq - hi)
+                if best is None or d < best[0]:
+                    best = (d, i)
+            if best is None:
+                return None, "a read of a word of the private data saw a value the word never had"
+            i = best[1]
+            if i > 0:
+                cons.append((ch[i - 1], r))
+            if i < len(ch):
+                cons.append((r, ch[i]))
+    eps = 1e-4
+    for _ in range(300):
+        changed = False
+        for x, y in cons:
+            if anchor[id(y)] <= anchor[id(x)]:
+                anchor[id(y)] = anchor[id(x)] + eps
+                changed = True
+        if not changed:
+            break
+    order = [e.thr + 1 for e in sorted(allev, key=lambda e: (anchor[id(e)], e.thr))]
+    queues = [(thr + 1, tr) for thr, tr in sorted(threads.items())]
+    return pf, queues, order
+
+
+def coq_replay(name, jobs, window=24, workers=4, chunk_events=6000, timeout=900):
+    """jobs: [(pf, preset_cancel, queues, order)]; returns the int lists of BlockR.replay"""
+    from concurrent.futures import ThreadPoolExecutor
+    chunks, i = [], 0
+    while i < len(jobs):
+        part, n = [], 0
+        while i < len(jobs) and (not part or n + len(jobs[i][3]) <= chunk_events):
+            part.append(jobs[i])
+            n += len(jobs[i][3])
+            i += 1
+        chunks.append((i, part))
+
+    def one(arg):
+        ci, part = arg
+        defs, calls = [], []
+        for k, (pf, preset, queues, order) in enumerate(part):
+            qs = ["(%d, [%s])" % (t, "; ".join(e.coq() for e in tr)) for t, tr in queues]
+            if preset:
+                # DBF_CANCELED preset on a DBF_PERFORM record (white-box): a cancel by a thread of its own, before everything
+                qs.insert(0, "(999999, [mkEv 100 0 0 0 0 5 0 1; mkEv 9 0 0 16 4 8 1 1; mkEv 101 0 0 0 0 0 0 1])")
+                order = [999999] * 3 + order
+            defs.append("Definition qs%d : list (Z * list event) := [%s]." % (k, ";\n".join(qs)))
+            defs.append("Definition ord%d : list Z := [%s]." % (k, "; ".join(str(t) for t in order)))
+            calls.append("replay %s %d qs%d ord%d" % ("true" if pf else "false", window, k, k))
+        body = defs + ["Eval vm_compute in [%s]." % "; ".join(calls)]
+        ok, vals, raw = driver.coq_eval("%s_%d" % (name, ci), IMPORTS + ["BlockR"], "\n".join(body) + "\n", timeout=timeout)
+        if not ok or len(vals) != 1:
+            raise RuntimeError("coq replay evaluation failed: " + raw[-2000:])
+        got = [driver.ints(r) for r in re.findall(r"\[([^\[\]]*)\]", vals[0])]
+        if len(got) != len(part):
+            raise RuntimeError("coq replay: %d results for %d rounds" % (len(got), len(part)))
+        return got
+    out = []
+    with ThreadPoolExecutor(max_workers=workers) as ex:
+        for got in ex.map(one, chunks):
+            out += got
+    return out
+
+
+REPLAY_FIELDS = ["executed", "left", "latent_steps", "stuck_thread", "all_idle", "inv_b", "flags", "performed", "queue_set", "gcount",
+                 "bodies", "fin", "ninv", "leaves", "nreg", "notifications_submitted", "qref", "cancelled", "stuck_pc", "stuck_left"]
+
+
+def judge_replay(rd, threads, r):
+    """compare the state the global model ends in with what was recorded; returns None or a dict describing the difference"""
+    m = dict(zip(REPLAY_FIELDS, r))
+    allev = [e for tr in threads.values() for e in tr]
+    want = {"left": 0, "all_idle": 1, "inv_b": 1, "flags": rd["finalflags"], "performed": rd["performed"] & M32,
+            "queue_set": rd["finalqueue"], "bodies": sum(1 for e in allev if e.kind == 102),
+            "ninv": sum(1 for e in allev if e.kind == 6 and e.obj % 2 == 0 and e.off == OFF["performed"]),
+            "leaves": sum(1 for e in allev if e.kind == 6 and e.obj % 2 == 1 and e.off == 0),
+            "nreg": 0 if rd["kind"] == 2 else rd["nnotif"], "notifications_submitted": sum(rd.get("runs", [])),
+            "cancelled": 1 if (rd["finalflags"] & 1) else 0, "qref": 2 * rd["finalqueue"]}
+    bad = {k: (m[k], v) for k, v in want.items() if m[k] != v}
+    if not bad:
+        return None
+    d = {"model_vs_recorded": bad, "executed": m["executed"], "left": m["left"], "latent_steps": m["latent_steps"]}
+    if m["left"]:
+        t = m["stuck_thread"]
+        tr = threads.get(t - 1, [])
+        k = len(tr) - m["stuck_left"]
+        d["first_unmatched_thread"] = t
+        d["first_unmatched_action"] = tr[k].brief() if 0 <= k < len(tr) else None
+        d["first_unmatched_index"] = k
+        d["stuck_program_point"] = TAGS.get(m["stuck_pc"], m["stuck_pc"])
+        d["model_words"] = {"flags": m["flags"], "performed": m["performed"], "queue_set": m["queue_set"], "gcount": m["gcount"]}
+        d["thread_trace"] = [e.brief() for e in tr][:50]
+    return d
+
+
 # transitions of Block.tstep as (pc_tag p) * 100 + (pc_tag p'), read off the definition of tstep (Block.pc_tag)
 TAGS = {0: "PIdle", 1: "PCrash", 2: "PRet", 3: "PSubmit", 4: "PSubmitCas", 5: "PSubmitRel", 6: "PInvRead", 7: "PSetThread",
         8: "PBodyNext", 9: "PInBody", 10: "PInc", 11: "PLeave", 12: "PPost", 13: "PPost(in leave)", 14: "PRel", 15: "PCancel",
@@ -378,7 +559,7 @@ def shape(t):
 def correspond(ctx):
     nseeds, rounds = (6, 150) if ctx.tier == "quick" else (24, 400)
     fails, mism, alltr, total = [], [], [], {}
-    notes, cut = [], []
+    notes, cut, rinfo = [], [], {}
     # corpus of found defects first: the queue over-release race (fixed in /repo)
     rc, out, err = run_race(150000 if ctx.tier == "quick" else 1500000)
     total["qref_race_rc"] = rc
@@ -409,10 +590,13 @@ def correspond(ctx):
             except Exception:
                 pass
             continue
-        f, tr, st, _ = analyse(text, label)
+        f, tr, st, rds = analyse(text, label)
         for x in f:
             x["rounds"], x["permille"] = rounds, permille
         fails += f
+        for k, rd in rds.items():
+            if "kind" in rd:
+                rinfo[(seed, k)] = rd
         alltr += [(sv, t, rd, thr, seed, permille) for (sv, t, rd, thr) in tr]
         for k, v in st.items():
             total[k] = total.get(k, 0) + v
@@ -434,6 +618,42 @@ def correspond(ctx):
                          "detail": {"seed": seed, "rounds": rounds, "permille": perm_of.get(seed), "round": rd, "thread": thr,
                                     "self": sv, "rejected_at": i,
                                     "ended_idle": idle, "trace": [e.brief() for e in t][:60]}})
+    # every complete round as a run of the GLOBAL model (BlockR.sched on Block.gstep)
+    rp = {"rounds_replayed_on_global_model": 0, "recorded_events_replayed_on_global_model": 0, "latent_steps_inserted_by_replay": 0,
+          "rounds_not_replayed_trace_rejected": 0, "replay_end_states_with_inv_b_true": 0}
+    accepted, byround = {}, {}
+    for (i, idle), (sv, t, rd, thr, seed) in zip(res, alltr):
+        accepted[(seed, rd)] = accepted.get((seed, rd), True) and i == -1 and idle == 1
+        byround.setdefault((seed, rd), {})[thr] = t
+    jobs, jmeta = [], []
+    for key, rd in sorted(rinfo.items()):
+        ths = byround.get(key, {})
+        if not accepted.get(key, True):
+            rp["rounds_not_replayed_trace_rejected"] += 1
+            continue
+        b = build_round(rd, ths)
+        if b[0] is None:
+            mism.append({"what": "a recorded round cannot be put in a global order: " + b[1],
+                         "detail": {"seed": key[0], "round": key[1], "permille": perm_of.get(key[0]), "rounds": rounds}})
+            continue
+        pf, queues, order = b
+        jobs.append((pf, pf and rd["cancels"] > 0, queues, order))
+        jmeta.append((key, rd, ths))
+    for r, (key, rd, ths) in zip(coq_replay("c19_replay", jobs) if jobs else [], jmeta):
+        d = judge_replay(rd, ths, r)
+        if d is None:
+            rp["rounds_replayed_on_global_model"] += 1
+            rp["recorded_events_replayed_on_global_model"] += r[0]
+            rp["latent_steps_inserted_by_replay"] += r[2]
+            rp["replay_end_states_with_inv_b_true"] += r[5]
+        else:
+            d.update({"seed": key[0], "round": key[1], "rounds": rounds, "permille": perm_of.get(key[0]), "kind": rd["kind"],
+                      "subm": rd["subm"]})
+            mism.append({"what": "a recorded round is not reproduced as a run of the global model Block.gstep (BlockR.sched: every "
+                                 "thread's recorded events in an order compatible with the recording, each a step of the model "
+                                 "with the recorded observation, latent steps inserted with the model's values; final model state "
+                                 "= recorded final state, inv_b true)", "detail": d})
+    total.update(rp)
     # misuse scenarios: the model's crash branches against the library's DISPATCH_CLIENT_CRASH
     cmism, cseen, cstats = crash_scenarios()
     mism += cmism
@@ -470,7 +690,11 @@ def correspond(ctx):
                     "empties the slot under a held dispatch_sync invocation; "
                     "schedule perturbation inside the library's atomic operations (0/15/40 percent of events).  Every per-thread "
                     "event trace recorded by the DISPATCH_VERIF hook on the private data record and on the private group's "
-                    "dg_state is replayed through Block.tstep (subset construction over latent steps) inside Coq; API oracle on "
+                    "dg_state is replayed through Block.tstep (subset construction over latent steps) inside Coq; every complete round "
+                    "(all threads of one block object's life) is then replayed as a run of the GLOBAL model (BlockR.sched on "
+                    "Block.gstep: each recorded event must be a step of the model with the recorded observation, in an order "
+                    "compatible with the recording and the value chains of dbpd_atomic_flags / dbpd_performed / dbpd_queue; final "
+                    "model words, counters and notification counts = recorded; boolean invariant inv_b true); API oracle on "
                     "stamps: wait 0 only after the first dbpd_performed increment whose thread had left the body, non-zero only "
                     "at/after the deadline (library clock) and never for FOREVER, each notification exactly once and not before "
                     "the first completion, testcancel non-zero once a cancel has returned, no body after a cancel that returned "
